@@ -212,4 +212,63 @@ theorem archsRemoveComponent_logs (info : CompInfo) (w0 : World)
     unfold setArch
     cl_keeps
 
+/-! ## the tail of `removeComponent` -/
+
+
+theorem tyOf_remove_other {C C' : SlotMap CompInfo} {k : Key} {info : CompInfo} (h : C.remove k = some (info, C'))
+    {c : Nat} (hc : c ≠ k.idx) : tyOf C' c = tyOf C c := by
+  have hs : C'.slots[c]? = C.slots[c]? := by
+    unfold SlotMap.remove at h
+    split at h
+    · cases h
+    · split at h
+      · cases h
+      · split at h
+        · cases h
+        · dsimp only at h
+          split at h <;>
+          · cases h
+            exact List.getElem?_set_ne (fun e => hc e.symm)
+  unfold tyOf World.compTy SlotMap.getByIndex
+  rw [hs]
+
+/-- **the tail of `remove_component`** (`Archetypes::remove_component`, then the cursor refresh), run from the world the
+    registry write left: every cell of every archetype listed in `member_of` of the removed component — position by
+    position — whose component type (in the world BEFORE the removal) has a destructor is in the ledger afterwards -/
+theorem dropCompTail_logs (w : World) (k : Key) (info : CompInfo) (comps' : SlotMap CompInfo)
+    (hrm : w.comps.remove k = some (info, comps')) (hid : info.id = k) (hty : w.compTy k.idx = info.ty)
+    (hidx : ∀ i a, w.archs.get i = some a → a.index = i) :
+    Hoare (fun w1 => w1 = Step.dropComp w k comps') (dropCompTail info)
+      (fun _ w' => (∀ e ∈ w.cdrops, e ∈ w'.cdrops) ∧
+        ∀ ai ∈ info.memberOf, ∀ a, w.archs.get ai = some a → ∀ (j c : Nat) (col : List Cell) (x : Cell),
+          a.comps[j]? = some c → a.cols[j]? = some col → x ∈ col → compNeedsDrop (w.compTy c) = true →
+          (w.compTy c, x.ser) ∈ w'.cdrops) ET := by
+  unfold dropCompTail
+  refine Hoare.bind (archsRemoveComponent_logs info (Step.dropComp w k comps') hidx) fun _ => ?_
+  have hk : Keeps (fun w' : World => ∀ e ∈ w.cdrops ++ info.memberOf.flatMap
+      (needAt (Step.dropComp w k comps').compsCore w.archs info), e ∈ w'.cdrops) resRefresh := by
+    unfold resRefresh dbgAssert; io_keeps
+  refine Hoare.pre (Hoare.post (Hoare.of_keeps (E := ET) hk fun _ _ _ => trivial) (fun _ w' h => ?_) (fun _ _ h => h))
+    (fun _ h => h.2)
+  · refine ⟨fun e he => h e (List.mem_append_left _ he), fun ai hai a ha j c col x hc hcol hx hn => ?_⟩
+    refine h _ (List.mem_append_right _ (List.mem_flatMap.2 ⟨ai, hai, ?_⟩))
+    unfold needAt
+    rw [ha]
+    unfold rcNeed
+    refine List.mem_flatMap.2 ⟨(c, col), ?_, List.mem_flatMap.2 ⟨x, hx, ?_⟩⟩
+    · refine List.mem_of_getElem? (i := j) ?_
+      rw [List.getElem?_zip_eq_some]; exact ⟨hc, hcol⟩
+    · have hT : (if (c == info.id.idx) = true then info.ty
+          else tyOf (Step.dropComp w k comps').compsCore c) = w.compTy c := by
+        by_cases he : c = k.idx
+        · subst he
+          rw [hid, if_pos (by simp), hty]
+        · rw [hid, if_neg (by simpa using he)]
+          show tyOf (SlotMap.mapVal CompInfo.core comps') c = w.compTy c
+          rw [tyOf_core, tyOf_remove_other hrm he]
+          rfl
+      dsimp only
+      rw [hT, if_pos hn]
+      exact List.mem_singleton.2 rfl
+
 end Evenio.CompLedger
